@@ -60,7 +60,7 @@ Definition y_in_range (past next q : point) : bool :=
 Definition x_in_range (past next q : point) : bool :=
   (Z.min (X past) (X next) <=? X q) && (X q <=? Z.max (X past) (X next)).
 
-(** ** Polygon::contains as it stands today (closed y-interval, truncating division) *)
+(** ** Polygon::contains as found (closed y-interval on both incident edges, truncating division) *)
 Fixpoint poly_scan_orig (es : list (point * point)) (q : point) (winding : Z) : res :=
   match es with
   | [] => Ret (negb (winding =? 0))
@@ -90,15 +90,23 @@ Definition poly_contains_orig (ps : list point) (q : point) : res :=
   if negb (bbox_contains (points_bbox ps) q) then Ret false
   else poly_scan_orig (seg_pairs ps) q 0.
 
-(** ** Polygon::contains after the proposed repair (work/c13/fix-polygon-contains.patch):
+(** ** Polygon::contains after the repair (work/c13/fix-polygon-contains.patch):
     same structure; the x-intercept comparison is replaced by the sign of the exact cross
-    product, and a non-horizontal edge is counted under the half-open rule only.
+    product, computed in i128 (every coordinate is cast before the subtraction), and a
+    non-horizontal edge is counted under the half-open rule only.
 <<
-    let cross = (next.x - past.x) * (pt.y - past.y) - (pt.x - past.x) * (next.y - past.y);
+    let cross = (next.x as i128 - past.x as i128) * (pt.y as i128 - past.y as i128)
+        - (pt.x as i128 - past.x as i128) * (next.y as i128 - past.y as i128);
     if cross == 0 { return true; }
     if next.y > past.y { if pt.y < next.y && cross > 0 { winding_num += 1; } }
-    else               { if pt.y < past.y && cross < 0 { winding_num -= 1; } }
->> *)
+    else if pt.y < past.y && cross < 0 { winding_num -= 1; }
+>>
+    [Ovf] = an i128 operation left the 128-bit range. *)
+Definition i128_min : Z := - 2 ^ 127.
+Definition i128_max : Z := 2 ^ 127 - 1.
+Definition in_i128 (z : Z) : bool := (i128_min <=? z) && (z <=? i128_max).
+Definition all_in_i128 (l : list Z) : bool := forallb in_i128 l.
+
 Fixpoint poly_scan (es : list (point * point)) (q : point) (winding : Z) : res :=
   match es with
   | [] => Ret (negb (winding =? 0))
@@ -113,7 +121,7 @@ Fixpoint poly_scan (es : list (point * point)) (q : point) (winding : Z) : res :
         let d := X q - X past in
         let c := Y next - Y past in
         let cr := a * b - d * c in
-        if all_in_int [a; b; a * b; d; c; d * c; cr] then
+        if all_in_i128 [a; b; a * b; d; c; d * c; cr] then
           if cr =? 0 then Ret true
           else if Y past <? Y next then
             if (Y q <? Y next) && (0 <? cr) then poly_scan es' q (winding + 1)
@@ -169,4 +177,11 @@ Definition shape_contains (s : shape) (q : point) : res :=
   | SRect p0 p1 => Ret (rect_contains p0 p1 q)
   | SPolygon ps => poly_contains ps q
   | SPath ps w => path_contains ps w q
+  end.
+
+(** the same with Polygon::contains as it stood before the repair *)
+Definition shape_contains_orig (s : shape) (q : point) : res :=
+  match s with
+  | SPolygon ps => poly_contains_orig ps q
+  | _ => shape_contains s q
   end.
